@@ -10,6 +10,7 @@ for _ctor in (_cst.Arg, _cst.Name, _cst.AssignEqual, _cst.SimpleWhitespace, _cst
     external(_loc.qualname_of(_ctor), params=None, returns="Opaque", pure=True, note="libcst node constructor: a free (immutable) record")
 external(_loc.qualname_of(_cst.parse_expression), params=None, returns="Opaque", pure=True, raises_any=True, note="parse an expression string")
 external(_loc.qualname_of(_m.Name), params=None, returns="Opaque", pure=True)
+external(_loc.qualname_of(_m.Attribute), params=None, returns="Opaque", pure=True)
 external(_loc.qualname_of(_m.matches), params={"node": "Opaque", "matcher": "Opaque", "metadata_resolver": "Opaque"}, returns="bool", pure=True,
          note="matchers.matches(arg.keyword, m.Name(n)): the argument's keyword is the name n (false for positional arguments)")
 REG.spec_globals.update({"matchers": _m, "cst": _cst})
@@ -45,3 +46,56 @@ contract("core_codemods.https_connection.HTTPSConnectionModifier.count_positiona
          ensures=[("the result is the length of the LEADING run of keyword-less arguments (star-args after a keyword do not count)",
                    "0 <= result and result <= len(arglist) and all(not arglist[j].keyword for j in range(result))"
                    " and (result == len(arglist) or bool(arglist[result].keyword))")])
+
+# ---- the remaining argument helpers: add_arg_to_call, update_call_target, update_arg_target -------------------------------------------
+external("opaque.with_changes", params={"self": "Opaque", "args": "list[Opaque]"}, returns="Opaque", pure=True,
+         ensures=["result.args == args"],
+         note="libcst node.with_changes(args=a): a copy of the node whose args are exactly a (every other field unchanged)")
+external("codemodder.codemods.utils.get_call_name", params={"call": "Opaque"}, returns="str", pure=True, note="name of the called function (string)")
+contract("codemodder.codemods.libcst_transformer.LibcstResultTransformer.add_arg_to_call", props=["C16"],
+         params={"self": "LibcstResultTransformer", "node": "Opaque", "name": "str", "value": "Opaque"}, returns="Opaque", raises_any=True,
+         ensures=[("exactly one argument is added, at the end; every existing argument is kept, identical and in place",
+                   "len(result.args) == len(node.args) + 1 and all(result.args[i] == node.args[i] for i in range(len(node.args)))")])
+contract("codemodder.codemods.libcst_transformer.LibcstResultTransformer.update_arg_target", props=["C16"],
+         params={"self": "LibcstResultTransformer", "updated_node": "Opaque", "new_args": "list[Opaque]"}, returns="Opaque", raises_any=True,
+         ensures=[("the call gets exactly the given arguments, in the given order", "len(result.args) == len(new_args)"),
+                  ("an element that already is an argument node is used as it is",
+                   "all(implies(isinstance(new_args[i], cst.Arg), result.args[i] == new_args[i]) for i in range(len(new_args)))")])
+external(_loc.qualname_of(_cst.Call), params={"func": "Opaque", "args": "list[Opaque]"}, returns="Opaque", pure=True,
+         ensures=["result.args == args"], note="libcst Call(func=f, args=a): a node whose args are exactly a")
+contract("codemodder.codemods.libcst_transformer.LibcstResultTransformer.update_call_target", props=["C16"],
+         params={"self": "LibcstResultTransformer", "original_node": "Opaque", "new_target": "str", "new_func": "str | None",
+                 "replacement_args": "list[Opaque] | None"}, returns="Opaque", raises_any=True,
+         ensures=[("only the callee changes: without replacement arguments the new call has the original arguments, identical and in order",
+                   "implies(replacement_args is None or len(replacement_args) == 0, result.args == original_node.args)"),
+                  ("with replacement arguments the new call has exactly those", "implies(replacement_args is not None and len(replacement_args) > 0, result.args == replacement_args)")])
+
+# ---- ImportedCallModifier.leave_Call: the shared driver of a dozen hardening codemods ----------------------------------------------------
+record("codemodder.codemods.imported_call_modifier.ImportedCallModifier", kind="ref",
+       fields={"file_context": "FileContext", "change_description": "str", "changes_in_file": "list[Change]", "matching_functions": "Opaque"},
+       bases=["codemodder.codemods.base_visitor.UtilsMixin"])
+_ICM = "ImportedCallModifier"
+external("codemodder.codemods.utils_mixin.NameResolutionMixin.find_base_name", params={"self": "Opaque", "node": "Opaque"}, returns="str | None", pure=True,
+         note="resolved dotted name of the callee, or None")
+external("codemodder.codemods.utils_mixin.NameResolutionMixin.is_direct_call_from_imported_module", params={"self": "Opaque", "call": "Opaque"},
+         returns="bool", pure=True, note="the call goes through an imported module/name")
+for _cb in ("update_attribute", "update_simple_name"):
+    contract("dyn:ImportedCallModifier." + _cb, trusted=True,
+             params={"self": _ICM, "true_name": "str", "original_node": "Opaque", "updated_node": "Opaque", "new_args": "Opaque"}, returns="Opaque",
+             raises_any=True, note="per-codemod callback building the rewritten call (out of reach: each codemod's own edit)")
+contract("dyn:ImportedCallModifier.updated_args", trusted=True, params={"self": _ICM, "original_args": "Opaque"}, returns="Opaque", raises_any=True,
+         note="per-codemod hook (default: the arguments unchanged)")
+_SEL = "(self.node_is_selected(original_node) and self.filter_by_path_includes_or_excludes(self.node_position(original_node)))"
+contract("codemodder.codemods.imported_call_modifier.ImportedCallModifier.leave_Call", props=["C16", "C13", "C06"],
+         params={"self": _ICM, "original_node": "Opaque", "updated_node": "Opaque"}, returns="Opaque",
+         modifies=["self.changes_in_file"], raises_any=True,
+         ensures=[("a call the selection filters reject is returned untouched and no change is recorded",
+                   "implies(not " + _SEL + ", result == updated_node and self.changes_in_file == old(self.changes_in_file))"),
+                  ("a call that is not a direct call of one of the codemod's functions is returned untouched and no change is recorded",
+                   "implies(not self.is_direct_call_from_imported_module(original_node) or self.find_base_name(original_node.func) is None,"
+                   " result == updated_node and self.changes_in_file == old(self.changes_in_file))"),
+                  ("at most one change per call; it names the call's first line and carries the findings of that line",
+                   "self.changes_in_file == old(self.changes_in_file) or (len(self.changes_in_file) == len(old(self.changes_in_file)) + 1"
+                   " and self.changes_in_file[len(self.changes_in_file) - 1].lineNumber == self.node_position(original_node).start.line"
+                   " and self.changes_in_file[len(self.changes_in_file) - 1].description == self.change_description"
+                   " and all(self.changes_in_file[i] == old(self.changes_in_file)[i] for i in range(len(old(self.changes_in_file)))))")])
